@@ -364,7 +364,25 @@ def programs():
             yield name, translate(fn)
 
 
+def selftest_programs():
+    from .pullshape_selftest_cases import CASES
+    out = []
+    for name, src, k, opq in CASES:
+        fn = ast.parse(src).body[0]
+        out.append((name, to_lean(translate(fn)), k, opq))
+    return out
+
+
 def generate():
+    # the translator's own reference snippets, translated afresh
+    st = selftest_programs()
+    lines = ['/- GENERATED by translators/pullshape.py from translators/pullshape_selftest_cases.py — do not edit. -/', 'import Petl.PullShape',
+             'set_option maxRecDepth 8000', 'namespace Petl.Gen', 'open Petl.PullShape', '',
+             '/-- (snippet, its translation, the look-ahead bound expected, whether it hands a source on) -/',
+             'def pullShapeSelfTest : List (String × PS × Option Int × Bool) := [']
+    lines.append(',\n'.join('  ("%s", %s, %s, %s)' % (n, t, 'none' if k is None else 'some %d' % k, 'true' if o else 'false') for n, t, k, o in st))
+    lines += [']', '', 'end Petl.Gen', '']
+    write_if_changed('PullShapeSelfTest.lean', '\n'.join(lines))
     progs = []
     for name, items in programs():
         progs.append((name, to_lean(items)))
@@ -377,7 +395,7 @@ def generate():
     lines.append(',\n'.join('  ("%s", ps_%d)' % (name, i) for i, (name, _t) in enumerate(progs)))
     lines += [']', '', 'end Petl.Gen', '']
     changed = write_if_changed('PullShapes.lean', '\n'.join(lines))
-    return {'functions': len(progs), 'changed': changed}
+    return {'functions': len(progs), 'changed': changed, 'selftest': len(st)}
 
 
 # ---- a Python mirror of Petl.PullShape.bound, for diagnostics only (the check uses the Lean definition) -------------
